@@ -88,8 +88,17 @@ def gen_plan(rng, tier):
         # last step: the control connection is lost, a peer leaves the ring while the driver is not listening, and the driver
         # re-attaches its control connection to another node whose tables no longer list that peer
         steps.append({'kind': 'ctrl_move_remove', 'node': rng.choice(sorted(members - set([0, 1]))), 'via': 'reconnect'})
-    return {'cluster': {'nodes': nodes}, 'version': 4, 'steps': steps, 'strategy': gen_strategy(rng), 'time_jump_p': 0,
+    plan = {'cluster': {'nodes': nodes}, 'version': 4, 'steps': steps, 'strategy': gen_strategy(rng), 'time_jump_p': 0,
             'line_p': rng.choice([0, 0, 0.01]), 'points': rng.choice([0, 2])}
+    adds = [s_ for s_ in steps if s_['kind'] in ('add', 'replace')]
+    if adds and rng.random() < 0.3:
+        # two refreshes (two application threads) meet the same new peer: one of them is descheduled inside Cluster.add_host /
+        # Metadata.add_or_return_host for a moment while the other goes through
+        for s_ in adds:
+            s_['via'] = 'two_refreshes'
+        plan['deep_stalls'] = [[rng.choice(['add_or_return_host', 'add_or_return_host', 'add_host']), rng.randrange(4, 14), rng.choice([0.01, 0.05]),
+                                rng.choice([1, 2, 3])]]
+    return plan
 
 
 def run_plan(plan, seed, choices=None):
@@ -101,7 +110,7 @@ def run_plan(plan, seed, choices=None):
     V = Violations()
     invalid = {}       # node idx -> field
     dup = set()
-    if plan.get('line_p') or plan.get('points'):
+    if plan.get('line_p') or plan.get('points') or plan.get('deep_stalls'):
         sim.enable_line_preemption([w.ccl.ControlConnection._refresh_node_list_and_token_map, w.ccl.Cluster.add_host,
                                     w.M['cmeta'].Metadata.add_or_return_host], p=plan.get('line_p', 0), points=plan.get('points', 0),
                                    est_lines=600)
